@@ -1,13 +1,147 @@
 (* Properties/C13.v — statements only.  C13: string.dump followed by load
    reproduces the function; dumping is deterministic and stable.
-   Models: GV.Marshal.Model (runtime/marshal.go), GV.Marshal.ModelRefactor
-   (runtime/loadunit.go RefactorCodeConsts, lib/stringlib/dump.go). *)
+
+   Models (hand-written, executable, extracted for the correspondence check):
+     GV.Marshal.Model          runtime/marshal.go (bwriter, breader, MarshalConst,
+                               UnmarshalConst) and the binary branch of
+                               runtime/lib.go LoadFromSourceOrCode + NewClosure
+     GV.Marshal.ModelRefactor  runtime/loadunit.go RefactorCodeConsts (on codes owning
+                               their constants, and on a compiled unit whose codes share
+                               one vector), lib/stringlib/dump.go
+   lim is the size in bytes one Go allocation can get; wf lim k says that k holds
+   what Go values of these types can hold and that each of its slices fits in lim.
+   No axioms. *)
 From Coq Require Import ZArith List.
-From GV Require Import Marshal.Model Marshal.ModelRefactor Marshal.Proofs.
+From GV Require Import Marshal.Model Marshal.ModelRefactor Marshal.Proofs Marshal.RefactorProofs.
 Import ListNotations.
 Open Scope Z_scope.
 
-Theorem C13_le_field_roundtrip :
-  forall n v, le_dec (le_enc n v) = v mod 256 ^ Z.of_nat n.
-Proof. exact le_dec_enc. Qed.
-Print Assumptions C13_le_field_roundtrip.
+(* UnmarshalConst undoes MarshalConst: every well-formed constant, codes nested to any
+   depth, whatever follows in the stream, with an unlimited (0) or sufficient budget; the
+   budget left is the budget minus the number of bytes of the encoding. *)
+Theorem C13_unmarshal_marshal :
+  forall lim k rest b, 0 <= lim <= maxAlloc -> wf lim k -> enough b (cost k) ->
+  unmarshal lim b (marshal k ++ rest) = UOk k rest (after b (cost k)).
+Proof. exact unmarshal_marshal. Qed.
+Print Assumptions C13_unmarshal_marshal.
+
+(* the hypotheses are satisfiable *)
+Theorem C13_wf_example : wf 1048576 ex_code.
+Proof. exact ex_code_wf. Qed.
+Print Assumptions C13_wf_example.
+
+Theorem C13_marshal_injective :
+  forall lim k1 k2, 0 <= lim <= maxAlloc -> wf lim k1 -> wf lim k2 -> marshal k1 = marshal k2 -> k1 = k2.
+Proof. exact marshal_injective. Qed.
+Print Assumptions C13_marshal_injective.
+
+Theorem C13_marshal_prefix_free :
+  forall lim k1 k2 r1 r2, 0 <= lim <= maxAlloc -> wf lim k1 -> wf lim k2 ->
+  marshal k1 ++ r1 = marshal k2 ++ r2 -> k1 = k2 /\ r1 = r2.
+Proof. exact marshal_prefix_free. Qed.
+Print Assumptions C13_marshal_prefix_free.
+
+(* load of a dump gives the code back, with UpvalueCount upvalue cells *)
+Theorem C13_load_marshal :
+  forall lim h ks, 0 <= lim <= maxAlloc -> wf lim (KCode h ks) -> 0 <= upvalueCount h ->
+  load_binary lim 0 (marshal (KCode h ks)) = LFun (KCode h ks) (upvalueCount h).
+Proof. exact load_marshal. Qed.
+Print Assumptions C13_load_marshal.
+
+(* RefactorCodeConsts: every opcode keeps its non-index bits; an opcode that loads a
+   constant loads the same constant before and after, or, for a nested function, its
+   refactoring (to which this theorem applies again). *)
+Theorem C13_refactor_preserves_lookup :
+  forall h ks k', refactor_cst (KCode h ks) = ROk k' ->
+  exists o a, k' = KCode (set_ops h o) a /\ zlen a <= 65536 /\
+    Forall2 (fun op op' =>
+      if loadsK op
+      then hi op' = hi op /\
+           exists c', nth_error a (Z.to_nat (kidx op')) = Some c' /\
+             (nth_error ks (Z.to_nat (kidx op)) = Some c' \/
+              exists c, nth_error ks (Z.to_nat (kidx op)) = Some c /\ refactor_cst c = ROk c')
+      else op' = op) (ops h) o.
+Proof. exact refactor_preserves_lookup. Qed.
+Print Assumptions C13_refactor_preserves_lookup.
+
+(* the same for a freshly compiled closure, whose unit shares one constant vector *)
+Theorem C13_refactor_unit_preserves_lookup :
+  forall f u n k', refactor_unit (S f) u n = ROk k' ->
+  exists h o a, nth_error u (Z.to_nat n) = Some (UCode h) /\ k' = KCode (set_ops h o) a /\
+    Forall2 (fun op op' =>
+      if loadsK op
+      then hi op' = hi op /\
+           exists c', nth_error a (Z.to_nat (kidx op')) = Some c' /\
+             (getk_u u (kidx op) = ROk c' \/ refactor_unit f u (kidx op) = ROk c')
+      else op' = op) (ops h) o.
+Proof. exact refactor_unit_preserves_lookup. Qed.
+Print Assumptions C13_refactor_unit_preserves_lookup.
+
+Theorem C13_refactor_idempotent :
+  forall k k', refactor_cst k = ROk k' -> refactor_cst k' = ROk k'.
+Proof. exact refactor_idempotent. Qed.
+Print Assumptions C13_refactor_idempotent.
+
+(* what string.dump marshals for a compiled closure is a fixed point of the refactoring *)
+Theorem C13_compiled_dump_is_fixed_point :
+  forall fuel u n k, refactor_unit fuel u n = ROk k -> refactor_cst k = ROk k.
+Proof. exact refactor_unit_fixed_point. Qed.
+Print Assumptions C13_compiled_dump_is_fixed_point.
+
+(* the refactoring model is not vacuous: constants renumbered 2,0,2,3 -> 0,1,0,2, the unused one dropped *)
+Theorem C13_refactor_example :
+  refactor_cst ex_r_code =
+  ROk (KCode (set_ops ex_r_head [1627389952; 1627389953; 1627389952; 1644167170; 42])
+         [KStr [104; 105]; KInt 70000; KCode (mkHead [99] [] [1627389952] [5] 0 1 0 []) [KStr [1; 2; 3]]]).
+Proof. exact ex_refactor. Qed.
+Print Assumptions C13_refactor_example.
+
+(* dump, load, dump: load(dump f) is the refactored code of f and dumping it gives the
+   same bytes.  (wf of the refactored code is a hypothesis: that the refactoring keeps
+   field ranges is not proved here.) *)
+Theorem C13_dump_load_dump_stable :
+  forall lim k h' ks' bs, 0 <= lim <= maxAlloc ->
+  dump k = ROk bs ->
+  refactor_cst k = ROk (KCode h' ks') -> wf lim (KCode h' ks') -> 0 <= upvalueCount h' ->
+  load_binary lim 0 bs = LFun (KCode h' ks') (upvalueCount h') /\ dump (KCode h' ks') = ROk bs.
+Proof. exact dump_load_dump_stable. Qed.
+Print Assumptions C13_dump_load_dump_stable.
+
+Theorem C13_dump_unit_load_dump_stable :
+  forall lim u n h' ks' bs, 0 <= lim <= maxAlloc ->
+  dump_unit u n = ROk bs ->
+  refactor_unit (S (length u)) u n = ROk (KCode h' ks') -> wf lim (KCode h' ks') -> 0 <= upvalueCount h' ->
+  load_binary lim 0 bs = LFun (KCode h' ks') (upvalueCount h') /\ dump (KCode h' ks') = ROk bs.
+Proof. exact dump_unit_load_dump_stable. Qed.
+Print Assumptions C13_dump_unit_load_dump_stable.
+
+(* dumping is deterministic (a function) and two dumps are equal only for equal refactored codes *)
+Theorem C13_dump_deterministic_injective :
+  forall lim k1 k2 k1' k2', 0 <= lim <= maxAlloc ->
+  refactor_cst k1 = ROk k1' -> refactor_cst k2 = ROk k2' -> wf lim k1' -> wf lim k2' ->
+  (dump k1 = dump k2 <-> k1' = k2').
+Proof. exact dump_deterministic_injective. Qed.
+Print Assumptions C13_dump_deterministic_injective.
+
+(* REFUTED on the code as it stands: "no input makes UnmarshalConst / load take the process
+   down".  A 28-byte stream requests a 4 TiB allocation before any check, with or without
+   a budget; the witness is replayed on the Go code by every run of the check. *)
+Theorem C13_unmarshal_total_no_panic_refuted :
+  exists inp, length inp = 28%nat /\
+    go_unmarshal (2 ^ 32) 0 inp = GCrash (2 ^ 42) /\
+    go_unmarshal (2 ^ 32) 1000 inp = GCrash (2 ^ 42) /\
+    load_binary (2 ^ 32) 1000 inp = LCrash (2 ^ 42).
+Proof. exact unmarshal_total_no_panic_refuted. Qed.
+Print Assumptions C13_unmarshal_total_no_panic_refuted.
+
+(* REFUTED: "load never raises a Go panic": a decodable code with UpvalueCount = -1. *)
+Theorem C13_load_no_panic_refuted :
+  exists inp, length inp = 58%nat /\ load_binary (2 ^ 32) 0 inp = LPanic.
+Proof. exact load_no_panic_refuted. Qed.
+Print Assumptions C13_load_no_panic_refuted.
+
+(* a negative length is a Go panic that UnmarshalConst's recover() turns into (nil, 0, nil) *)
+Theorem C13_unmarshal_swallows_panic :
+  exists inp, go_unmarshal (2 ^ 32) 0 inp = GNil 0.
+Proof. exact unmarshal_swallows_panic. Qed.
+Print Assumptions C13_unmarshal_swallows_panic.
